@@ -161,15 +161,35 @@ def rule_samplers(repo: Repo) -> List[Ob]:
                 else:
                     cells.append((f"shape{i}", nz(got_shapes[i]), _contract_rf(want)))
             # effective loc/scale: an outer `X * call` / `call * X` multiplies both
-            outer = RF(Poly.const(1))
-            p = parent(calls[0])
-            if isinstance(p, ast.BinOp) and isinstance(p.op, ast.Mult):
-                other = p.right if p.left is calls[0] else p.left
-                outer = nz(other)
             g_loc = nz(kws["loc"]) if "loc" in kws else RF(Poly.const(0))
             g_scale = nz(kws["scale"]) if "scale" in kws else RF(Poly.const(1))
-            cells.append(("loc", g_loc * outer, _contract_rf(loc)))
-            cells.append(("scale", g_scale * outer, _contract_rf(scale)))
+            # the affine map applied to the draw on its way to the return:  scale * draw,  loc + draw,  d = draw; return s * d
+            site, hops = calls[0], 0
+            while hops < 12:
+                hops += 1
+                p = parent(site)
+                if isinstance(p, ast.BinOp) and isinstance(p.op, ast.Mult):
+                    other = nz(p.right if p.left is site else p.left)
+                    g_loc, g_scale = g_loc * other, g_scale * other
+                elif isinstance(p, ast.BinOp) and isinstance(p.op, ast.Add):
+                    g_loc = g_loc + nz(p.right if p.left is site else p.left)
+                elif isinstance(p, ast.BinOp) and isinstance(p.op, ast.Sub):
+                    if p.left is site:
+                        g_loc = g_loc - nz(p.right)
+                    else:
+                        g_loc, g_scale = nz(p.left) - g_loc, -g_scale
+                elif isinstance(p, ast.Assign) and len(p.targets) == 1 and isinstance(p.targets[0], ast.Name) and p.value is site:
+                    nm_ = p.targets[0].id
+                    loads = [x for x in walk_no_nested(m.node) if isinstance(x, ast.Name) and x.id == nm_ and isinstance(x.ctx, ast.Load)]
+                    if len(defs.defs.get(nm_, [])) != 1 or len(loads) != 1:
+                        raise AnalysisError(f"the draw is kept in `{nm_}`, which is not used exactly once")
+                    site = loads[0]
+                    continue
+                else:
+                    break
+                site = p
+            cells.append(("loc", g_loc, _contract_rf(loc)))
+            cells.append(("scale", g_scale, _contract_rf(scale)))
         except AnalysisError as e:
             obs.append(inconclusive("F-sampler", key + "::args", cls.relpath, calls[0].lineno, m.qualname, f"sampler arguments not normalisable ({e})"))
             continue
@@ -1085,8 +1105,9 @@ def rule_invariant_inputs(repo: Repo) -> List[Ob]:
     gp = repo.function("inputparser/goal_parser.py", "GoalParser.parse")
     letter_kind: Dict[str, str] = {}
     for n in walk_no_nested(gp.node):
-        if isinstance(n, ast.If) and isinstance(n.test, ast.Compare) and src(n.test.left) == "goal[0]" and const_str(n.test.comparators[0]):
-            letter = const_str(n.test.comparators[0])
+        if isinstance(n, ast.If) and isinstance(n.test, ast.Compare) and len(n.test.ops) == 1 and isinstance(n.test.ops[0], ast.Eq) and \
+                ((isinstance(n.test.left, ast.Subscript) and const_str(n.test.comparators[0])) or (isinstance(n.test.comparators[0], ast.Subscript) and const_str(n.test.left))):
+            letter = const_str(n.test.comparators[0]) or const_str(n.test.left)
             for r in [x for x in n.body if isinstance(x, ast.Return)]:
                 if isinstance(r.value, ast.Call):
                     kinds = [a.id for a in r.value.args if isinstance(a, ast.Name) and a.id.isupper()]
@@ -1099,8 +1120,12 @@ def rule_invariant_inputs(repo: Repo) -> List[Ob]:
     h = repo.function("cli/actions/goals_action.py", "GoalsAction.handle_all_goals")
     n_store = 0
     for n in walk_no_nested(h.node):
-        if isinstance(n, ast.If) and isinstance(n.test, ast.Compare) and src(n.test.left) == "goal_type" and isinstance(n.test.comparators[0], ast.Name):
-            kind = n.test.comparators[0].id
+        if isinstance(n, ast.If) and isinstance(n.test, ast.Compare) and len(n.test.ops) == 1 and isinstance(n.test.ops[0], ast.Eq) and \
+                isinstance(n.test.left, ast.Name) and isinstance(n.test.comparators[0], ast.Name):
+            # goal_type == CENTRAL  /  CENTRAL == goal_type: the side that names a goal kind
+            kind = next((x.id for x in (n.test.comparators[0], n.test.left) if x.id in letter_kind.values()), None)
+            if kind is None:
+                continue
             for st in n.body:
                 for a in ast.walk(st):
                     if isinstance(a, ast.Assign) and isinstance(a.targets[0], ast.Subscript) and "closed_forms" in src(a.targets[0].value):
